@@ -22,7 +22,7 @@ var SigmaLex = []string{
 
 // SigmaLexMacro: escape-level symbols for the string scanner (C03).
 var SigmaLexMacro = []string{
-	`"`, `\`, "a", `\u`, "00e9", "0041", "n", "/", "b", "x", " ", "\n", `"""`, "é", "😀", "\t", "\x7f", "G", "+", "-", "041", "D83D",
+	`"`, `\`, "a", `\u`, "00e9", "0041", "n", "/", "b", "x", " ", "\n", `"""`, "é", "😀", "\t", "\x7f", "G", "+", "-", "041", "D83D", `\uD83D\uDE00`,
 }
 
 // Tok is a token class representative.
